@@ -13,6 +13,7 @@ import EasyNet.Lemmas.ConsumerSim
 import EasyNet.Lemmas.BRUSpec
 import EasyNet.Lemmas.Fixed
 import EasyNet.Lemmas.Producer
+import EasyNet.Lemmas.JRawWs  -- raw JSON framer
 namespace EasyNet
 
 theorem RU.refines (sep : Bytes) (limit : Nat) (ke : Bool) (hsep : sep ≠ []) :
@@ -215,3 +216,67 @@ example : AutoSep.produce [124, 124] [97, 124] = .refused ∧ AutoSep.produce [1
   decide +kernel
 
 end EasyNet
+
+-- ==== BEGIN raw JSON framer ====
+namespace EasyNet
+
+/-- **C01, raw JSON (`JSONSerializer(use_lines=False)`): producer and consumer together.**
+    `JRaw.JText` is the grammar of the texts the encoder emits (Lemmas/JRawGrammar.lean; a superset: objects / arrays of
+    arbitrary nesting depth whose members are separated by any bytes other than quotes, brackets, braces and backslashes;
+    strings of any bytes with backslash escapes, in particular runs of backslashes before a quote; plain values = non-empty
+    runs of value bytes not starting with a quote, bracket or brace).  `JRaw.produce` appends "\n" iff the text does not
+    start with `{`, `[` or `"`.
+    For every list of such texts, each at most `limit` bytes long, and EVERY way of cutting the produced stream into reads
+    (empty reads allowed), the copying consumer over `JRaw.feed` delivers exactly one frame per text, in order, reports no
+    error and retains nothing.  Each frame is exactly what the producer emitted for the text: the text itself for objects,
+    arrays and strings, and the text plus its terminating newline for plain values — the trailing-whitespace rule of
+    `_split_partial_document`: whitespace that follows a complete document in the same buffer is attached to the frame
+    (here that is only ever the producer's newline, because the next text does not start with whitespace); the JSON decoder
+    ignores it. -/
+theorem C01_jraw_roundtrip (limit : Nat) (ps : List Bytes) (hvalid : ∀ p ∈ ps, JRaw.JText p ∧ p.length ≤ limit)
+    (chunks : List Bytes) (hcut : chunks.flatten = (ps.map JRaw.produce).flatten) :
+    (Consumer.run JRaw.init (JRaw.feed limit) Consumer.new chunks).2 = ps.map (fun p => Item.frame (JRaw.produce p)) ∧
+    Consumer.held (·.doc) (Consumer.run JRaw.init (JRaw.feed limit) Consumer.new chunks).1 = [] := by
+  -- choose, for every text, the syntactic document the producer emits
+  have hdocs : ∀ qs : List Bytes, (∀ p ∈ qs, JRaw.JText p ∧ p.length ≤ limit) →
+      ∃ docs : List JRaw.Doc, (∀ d ∈ docs, d.ok limit) ∧ docs.map JRaw.Doc.bytes = qs.map JRaw.produce := by
+    intro qs
+    induction qs with
+    | nil => intro _; exact ⟨[], by simp, rfl⟩
+    | cons p qs ih =>
+      intro hv
+      obtain ⟨docs, h1, h2⟩ := ih (fun q hq => hv q (by simp [hq]))
+      obtain ⟨d, hd1, hd2⟩ := JRaw.jtext_doc limit (hv p (by simp)).1 (hv p (by simp)).2
+      refine ⟨d :: docs, ?_, by simp [hd2, h2]⟩
+      intro e he
+      simp only [List.mem_cons] at he
+      rcases he with rfl | he
+      · exact hd1
+      · exact h1 e he
+  obtain ⟨docs, hok, hmap⟩ := hdocs ps hvalid
+  have hrun := JRaw.run_docs limit docs hok [] (JRaw.isTail_nil limit) chunks (by rw [hmap]; simpa using hcut)
+  refine ⟨?_, hrun.2 rfl⟩
+  rw [hrun.1]
+  have : docs.map (fun d => Item.frame d.bytes) = (docs.map JRaw.Doc.bytes).map Item.frame := by rw [List.map_map]; rfl
+  rw [this, hmap, List.map_map]
+  rfl
+
+/-- non-vacuity: `{"a":"}\\\""}` (a string holding a brace, an escaped backslash and an escaped quote), `12`, `[[],{}]`
+    are texts of the grammar; the second one gets a newline -/
+example : JRaw.JText [123, 34, 97, 34, 58, 34, 125, 92, 92, 92, 34, 34, 125] ∧ JRaw.JText [49, 50] ∧
+    JRaw.JText [91, 91, 93, 44, 123, 125, 93] ∧ JRaw.produce [49, 50] = [49, 50, 10] := by
+  refine ⟨?_, ?_, ?_, rfl⟩
+  · exact .obj [34, 97, 34, 58, 34, 125, 92, 92, 92, 34, 34] (.str [97] _ (.char _ _ (by decide) (by decide) .nil)
+      (.filler 58 _ (by decide) (.str [125, 92, 92, 92, 34] _
+        (.char _ _ (by decide) (by decide) (.esc _ _ (.esc _ _ .nil))) .nil)))
+  · exact .plain _ (by decide) (by decide)
+  · exact .arr [91, 93, 44, 123, 125] (.arr [] _ .nil (.filler 44 _ (by decide) (.obj [] _ .nil .nil)))
+
+/-- the theorem applied: that stream cut in the middle of the backslash run and between value and newline -/
+example : (Consumer.run JRaw.init (JRaw.feed 13) Consumer.new
+      [[123, 34, 97, 34, 58, 34, 125, 92, 92], [92, 34, 34, 125, 49, 50], [10, 91, 91, 93, 44, 123], [125, 93]]).2
+    = [.frame [123, 34, 97, 34, 58, 34, 125, 92, 92, 92, 34, 34, 125], .frame [49, 50, 10], .frame [91, 91, 93, 44, 123, 125, 93]] := by
+  decide +kernel
+
+end EasyNet
+-- ==== END raw JSON framer ====
